@@ -194,7 +194,8 @@ type run struct {
 
 	// ticket / barrier machinery
 	mu       sync.Mutex
-	cond     *sync.Cond
+	cond     *sync.Cond // relay goroutines wait here for tickets
+	ccond    *sync.Cond // the coordinator waits here for goroutines to park (separate, or parked waiters wake each other forever)
 	tickets  int
 	parked   int
 	stopped  bool
@@ -257,7 +258,7 @@ func (r *run) ticket() bool {
 	defer r.mu.Unlock()
 	for r.tickets == 0 && !r.stopped {
 		r.parked++
-		r.cond.Broadcast()
+		r.ccond.Broadcast()
 		r.cond.Wait()
 		r.parked--
 	}
@@ -485,7 +486,7 @@ func (r *run) snapshot(tag string) ev {
 func (r *run) waitParked(n int) {
 	r.mu.Lock()
 	for r.parked < n {
-		r.cond.Wait()
+		r.ccond.Wait()
 	}
 	r.mu.Unlock()
 }
@@ -507,6 +508,7 @@ func execBeh(b Beh, addr string) []ev {
 	r := &run{b: b, addr: addr, tr: &trace{}, objs: map[uint64]map[string]*lavasession.ConsumerSessionsWithProvider{},
 		sids: map[*lavasession.SingleConsumerSession]int{}, hold: map[*lavasession.SingleConsumerSession]int{}}
 	r.cond = sync.NewCond(&r.mu)
+	r.ccond = sync.NewCond(&r.mu)
 	r.csm = lavasession.NewConsumerSessionManager(&lavasession.RPCEndpoint{NetworkAddress: "stub", ChainID: "stub", ApiInterface: "stub", HealthCheckPath: "/"},
 		opt, nil, "lava@test", lavasession.NewActiveSubscriptionProvidersStorage())
 	list, names := r.pairingList(1, nil)
@@ -642,6 +644,7 @@ func execTight(b Beh, addr string) []ev {
 	r := &run{b: b, addr: addr, tr: &trace{}, objs: map[uint64]map[string]*lavasession.ConsumerSessionsWithProvider{},
 		sids: map[*lavasession.SingleConsumerSession]int{}, hold: map[*lavasession.SingleConsumerSession]int{}}
 	r.cond = sync.NewCond(&r.mu)
+	r.ccond = sync.NewCond(&r.mu)
 	r.csm = lavasession.NewConsumerSessionManager(&lavasession.RPCEndpoint{NetworkAddress: "stub", ChainID: "stub", ApiInterface: "stub", HealthCheckPath: "/"},
 		opt, nil, "lava@test", lavasession.NewActiveSubscriptionProvidersStorage())
 	list, names := r.pairingList(1, nil)
